@@ -509,7 +509,7 @@ func tmpArtefacts(list []string) []string {
 	var out []string
 	for _, p := range list {
 		top := strings.TrimSuffix(strings.SplitN(p, "/", 2)[0], "/")
-		if strings.HasPrefix(top, "crl_") && strings.HasSuffix(top, "_tmp") {
+		if len(top) >= 8 && strings.HasPrefix(top, "crl_") && strings.HasSuffix(top, "_tmp") {
 			out = append(out, top)
 		}
 	}
